@@ -74,7 +74,11 @@ where
             .statistics
             .iter()
             .map(|s| match s.statistic.calculate(&self.scs) {
-                Ok(stat) => Ok(format!("{stat:.precision$}", precision = s.precision)),
+                Ok(stat) => {
+                    // Formatting panics on a precision above u16::MAX; an f64 has no digits there
+                    let precision = s.precision.min(usize::from(u16::MAX));
+                    Ok(format!("{stat:.precision$}"))
+                }
                 Err(e) => Err(anyhow!(e)),
             })
             .collect::<Result<Vec<_>, _>>()?;
